@@ -24,7 +24,10 @@ QLookbacks == IF Q THEN {0, 1} ELSE {0, 4}
 Offsets    == IF Q THEN {-1, 0, 2} ELSE {-2, -1, 0, 2}
 Steps      == IF Q THEN {0, 1, 2} ELSE {0, 1, 2, 3}
 Starts     == IF Q THEN {1, 4} ELSE {0, 1, 4}
-NSteps     == IF Q THEN {4} ELSE {1, 4}
+\* with a tick of 500 ms the samples lie two ticks apart (Stretch) and the window has 23 steps of one tick: the step is
+\* finer than the sample spacing and the window crosses the engine's batches of 10 steps inside the data
+Stretch    == IF TickMs = 500 THEN 2 ELSE 1
+NSteps     == IF TickMs = 500 THEN {23} ELSE IF Q THEN {4} ELSE {1, 4}
 AtP(k, v)  == [k |-> k, v |-> v]
 Ats        == IF Q THEN {AtP("none", 0), AtP("start", 0), AtP("end", 0), AtP("lit", 3)}
                    ELSE {AtP("none", 0), AtP("start", 0), AtP("end", 0), AtP("lit", 0), AtP("lit", 3)}
@@ -40,14 +43,14 @@ Init == g \in [lay : Layouts, lb : Lookbacks, qlb : QLookbacks, off : Offsets, s
 Next == UNCHANGED g
 
 SmpOf(lay) == LET ts == SetToSortSeq({u \in 0..MaxT : lay[u] # "-"}, LAMBDA a, b : a < b)
-              IN [i \in 1..Len(ts) |-> Smp(ts[i], IF lay[ts[i]] = "f" THEN "f" ELSE "s", 100 + ts[i])]
+              IN [i \in 1..Len(ts) |-> Smp(ts[i] * Stretch, IF lay[ts[i]] = "f" THEN "f" ELSE "s", 100 + ts[i])]
 
 \* m{a="w"} comes first in the storage and has one early sample: for later windows a storage that hands out only the
 \* querier's time range returns it without any sample (the series after it must not be disturbed by that)
 Data(x) == << Series(<< <<"__name__", "m">>, <<"a", "w">> >>, <<Smp(0, "f", 5)>>),
               Series(<< <<"__name__", "m">>, <<"a", "x">> >>, SmpOf(x.lay)),
-              Series(<< <<"__name__", "m">>, <<"a", "z">> >>, [u \in 1..(MaxT + 1) |-> Smp(u - 1, "f", 5)]),
-              Series(<< <<"__name__", "decoy">>, <<"a", "x">> >>, <<Smp(0, "f", 7), Smp(MaxT, "f", 8)>>) >>
+              Series(<< <<"__name__", "m">>, <<"a", "z">> >>, [u \in 1..(MaxT * Stretch + 1) |-> Smp(u - 1, "f", 5)]),
+              Series(<< <<"__name__", "decoy">>, <<"a", "x">> >>, <<Smp(0, "f", 7), Smp(MaxT * Stretch, "f", 8)>>) >>
 
 AtK(x) == x.at.k
 AtV(x) == x.at.v
@@ -69,7 +72,7 @@ ScnOf(x) == Scn("sel", "C02", TickMs, Data(x), PlanOf(x), x.start, EndOf(x), x.s
 Lb(x) == IF x.qlb > 0 THEN x.qlb ELSE x.lb
 Ref(x, t) == IF AtK(x) = "lit" THEN AtV(x) - x.off ELSE IF AtK(x) = "start" THEN x.start - x.off
              ELSE IF AtK(x) = "end" THEN EndOf(x) - x.off ELSE t - x.off
-Chosen(x, t) == LET c == {u \in 0..MaxT : x.lay[u] # "-" /\ u <= Ref(x, t) /\ u >= Ref(x, t) - Lb(x)}
+Chosen(x, t) == LET c == {u \in 0..MaxT : x.lay[u] # "-" /\ u * Stretch <= Ref(x, t) /\ u * Stretch >= Ref(x, t) - Lb(x)}
                 IN IF c = {} THEN -1 ELSE IF x.lay[Max(c)] = "s" THEN -1 ELSE Max(c)
 GridOf(x) == Grid(ScnOf(x))
 SelectionLaw ==
@@ -84,11 +87,12 @@ SelectionLaw ==
 \* ---- emission filter
 \* boundary: some step whose candidate window edge is exactly hit (age = lookback), just missed
 \* (age = lookback + 1), or hides a sample behind a marker; or a sample exactly on the step
+LayAt(x, tick) == IF tick % Stretch = 0 /\ (tick \div Stretch) \in 0..MaxT THEN x.lay[tick \div Stretch] ELSE "-"
 Interesting(x) ==
   \E i \in 1..Len(GridOf(x)) : LET r == Ref(x, GridOf(x)[i]) IN
-     \/ (r - Lb(x) \in 0..MaxT /\ x.lay[r - Lb(x)] # "-")
-     \/ (r - Lb(x) - 1 \in 0..MaxT /\ x.lay[r - Lb(x) - 1] # "-")
-     \/ (\E u \in 0..MaxT : x.lay[u] = "s" /\ u <= r /\ u >= r - Lb(x))
+     \/ LayAt(x, r - Lb(x)) # "-"
+     \/ LayAt(x, r - Lb(x) - 1) # "-"
+     \/ (\E u \in 0..MaxT : x.lay[u] = "s" /\ u * Stretch <= r /\ u * Stretch >= r - Lb(x))
 Hash(x) == (x.lb * 7 + x.qlb * 13 + (x.off + 5) * 17 + x.step * 19 + x.start * 23 + x.n * 29
             + Cardinality({u \in 0..MaxT : x.lay[u] = "f"}) * 31
             + FoldSet(LAMBDA u, acc : acc + (IF x.lay[u] = "-" THEN 0 ELSE IF x.lay[u] = "f" THEN u + 1 ELSE 3 * (u + 1)), 0, 0..MaxT) * 37)
